@@ -534,7 +534,7 @@ func c33Run(raw json.RawMessage) (res Result, err error) {
 			}
 		}
 	}
-	res.InDomain = !csvBad && !timeBad && in.Chunk >= 1
+	res.InDomain = in.Chunk >= 1 // no guard on the file's contents since the fixes 85c538e / 4016039 in /repo
 	// Oracle: the import either reports an error, or every data line of the file is loaded with its
 	// parsed values.  A file with any malformed line cannot be loaded completely, so it must report an error.
 	res.Holds = true
@@ -595,14 +595,7 @@ func c33Run(raw json.RawMessage) (res Result, err error) {
 			}
 		}
 	}
-	if !res.Holds {
-		switch {
-		case obs.Code == 0 && csvBad:
-			res.Class = "csv-read-error-treated-as-eof"
-		case obs.Code == 2 && timeBad:
-			res.Class = "unparsable-timestamp-panic"
-		}
-	}
+	// no known finding class is left for C33 (both defects are fixed in /repo): every oracle failure is unlisted
 	res.Tags = []string{fmt.Sprintf("code=%d", obs.Code), fmt.Sprintf("lines=%d", bucket(len(in.Lines))), fmt.Sprintf("chunks=%d", bucket(obs.Chunks)),
 		fmt.Sprintf("cols=%d", len(in.Cols))}
 	for _, t := range []struct {
@@ -617,7 +610,7 @@ func c33Run(raw json.RawMessage) (res Result, err error) {
 	for _, c := range in.Cols {
 		res.Tags = append(res.Tags, "type:"+c.Type)
 	}
-	res.Nontrivial = res.InDomain && len(in.Lines) >= 2 && in.Chunk < len(in.Lines)
+	res.Nontrivial = res.InDomain && len(in.Lines) >= 2 && in.Chunk < len(in.Lines) && !csvBad && !timeBad
 	res.Key = string(raw)
 	return res, nil
 }
@@ -630,7 +623,7 @@ func init() {
 		Rule: "csv files over a bucket of 1-5 columns of the 11 parsable fixed-width types, Epoch first then the columns in random order (30% an " +
 			"unused column, header names in other case / padded), timeFormat timestamp (integers, fractions of 1-10 digits, signs), 0-10 data " +
 			"lines (0-60 thorough); 45% clean files, otherwise per line 7% wrong field count, 4% bare quote, 6% unparsable/out-of-range cell, " +
-			"5% unparsable timestamp; chunk size 1..lines+2; distinct = distinct input JSON; non-trivial = inside the guard, >=2 lines, >1 chunk",
+			"5% unparsable timestamp; chunk size 1..lines+2; distinct = distinct input JSON; non-trivial = well-formed csv and timestamps, >=2 lines, >1 chunk",
 		Gen: c33Gen,
 		Run: c33Run,
 	})
